@@ -54,6 +54,7 @@ func runC24(c *Ctx) {
 	r.Rule("C24.R1", "the decision who emits the nil end-of-gathering marker is atomic on both sides: in the gatherer's OnCandidate callback the publication of ICEGathererStateComplete and the test of the candidate pool, and in flushCandidates the read of the gatherer state that decides the marker and the emptying of the pool, each pair lies in one critical section of candidatePoolLock; the callback's marker is guarded by a pool test and the flush's marker by a test of the gatherer state", 4)
 	r.Rule("C24.R4", "one marker per gathering across repeated flushes: flushCandidates' nil marker is reached only through a branch that requires a sample of the pool predicate taken before the pool is emptied, in the emptying critical section (a flush that finds the pool already inactive - second SetLocalDescription, pool size 0 - emits no marker, because the callback reported it)", 1)
 	r.Rule("C24.R5", "the agent callback resolves the candidate handler when the candidate arrives: every handler variable it invokes is declared inside the callback literal, not captured from Gather() (with a pool, gathering starts before OnICECandidate can be registered)", 2)
+	r.Rule("C24.R6", "no candidate after the marker: the flush's deliveries of pooled candidates are ordered before any marker the callback may report - they happen inside the critical section that takes the pool, or that section raises an in-progress field the callback's marker decision reads", 1)
 	r.Rule("C24.R2", "guarded-by: every write of candidatePool / iceCandidatePoolSize anywhere in the module, and every read of them in the callback and in flushCandidates, holds candidatePoolLock", 5)
 	r.Rule("C24.R3", "path rules: in the callback a non-nil candidate is appended to the pool or handed to the handler, never both and (unless its conversion failed) at least one, the pool test and the append share one critical section; flushCandidates snapshots and empties the pool in one critical section, before any emission, ranges over the snapshot, emits exactly one candidate per iteration (or skips a failed conversion) and emits the nil marker after the last candidate; the callback pools candidates and defers the marker under the same predicate; the handler is obtained only by these bodies", 10)
 	r.NotCovered = append(r.NotCovered,
@@ -135,6 +136,7 @@ func runC24(c *Ctx) {
 	x.r3Flush(flush)
 	x.r4Flush(flush) // c24b.go
 	x.r5Callback(cb, cbName, bodies)
+	x.r6Order(flush, nilBody)
 }
 
 // handlerUsers: the candidate handler is obtained only by the bodies this check analyses
